@@ -82,6 +82,29 @@ def unique_ids(shape, kind, offset=1):
     raise ValueError(kind)
 
 
+def many_dims(rng, lo=4, cap=512, nmin=9, nmax=13):
+    """Nine or more subsystems, most of local dimension 1 or 2, total size within [lo, cap]."""
+    n = int(rng.integers(nmin, nmax + 1))
+    while True:
+        d = [int(v) for v in rng.choice([1, 2, 3], size=n, p=[0.45, 0.4, 0.15])]
+        if lo <= int(np.prod(d)) <= cap:
+            return d
+
+
+NARROW = ("int8", "uint8", "int16", "uint16", "int32", "uint32")
+
+
+def narrow_ints(rng, shape, dtype):
+    """Integer array of a type narrower than the platform integer, entries close to the type's limits (sums leave the type's range)."""
+    info = np.iinfo(dtype)
+    lo, hi = int(info.min), int(info.max)
+    x = rng.integers(hi - hi // 8, hi, size=shape, endpoint=True)
+    if lo < 0 and rng.random() < 0.5:
+        neg = rng.random(shape) < 0.3
+        x = np.where(neg, -x, x)
+    return x.astype(dtype)
+
+
 def layout(x, how):
     """Same values, different memory layout / flags."""
     if how == "C":
